@@ -82,7 +82,7 @@ const MeterId &meter_of(const std::string &id)
 }
 std::string sel_name(const std::string &n) { return n == "m1" ? "libA" : n == "m2" ? "libC" : ""; }
 std::string sel_version(const std::string &v) { return v == "1.0" ? "1.0.0" : v == "2.0" ? "2.0.0" : ""; }
-std::string sel_schema(const std::string &s) { return s == "s1" ? kSchema : ""; }
+std::string sel_schema(const std::string &s) { return s == "s1" ? kSchema : s == "s2" ? "https://example.test/schema/2" : ""; }
 
 sdkm::InstrumentType sdk_type(const std::string &t)
 {
